@@ -90,18 +90,19 @@ def _opt(e, code, val):
 
 
 def pcapng(packets, endian="<", tsresol=6, tsoffset=None, dsbs_before=(), dsbs_after=(), extra_blocks=(), dsb_at=None, use_pb=False,
-           snaplen=262144, linktype=1):
+           snaplen=262144, linktype=1, offset_first=False):
     """packets: list of (ts_in_units_of_the_resolution_as_int, frame_bytes) or ('DSB', text).
     tsresol: int k for 10^-k, or (2, k) for 2^-k.  extra_blocks: list of (position_index, block_type) inserted before packet i.
     Returns the file bytes."""
     e = endian
     out = [_block(e, 0x0A0D0D0A, struct.pack(e + "IHHq", 0x1A2B3C4D, 1, 0, -1))]
     opts = b""
+    o_resol = b""
     if tsresol != 6:
         v = tsresol if isinstance(tsresol, int) else (0x80 | tsresol[1])
-        opts += _opt(e, 9, bytes([v]))
-    if tsoffset is not None:
-        opts += _opt(e, 14, struct.pack(e + "q", tsoffset))
+        o_resol = _opt(e, 9, bytes([v]))
+    o_off = _opt(e, 14, struct.pack(e + "q", tsoffset)) if tsoffset is not None else b""
+    opts = (o_off + o_resol) if offset_first else (o_resol + o_off)      # the options of a block may come in any order
     if opts:
         opts += struct.pack(e + "HH", 0, 0)
     pre_idb = [b for pos, b in extra_blocks if pos == "pre_idb"]
